@@ -42,7 +42,9 @@ def dict_literal(node):
 
 def check(run, project):
     mod = project.module(MAIN)
-    run.explanation = "agreement of argparse choices with dispatch tables; refusal/return statuses on the CFG; def-use of the convert pipeline"
+    run.explanation = ("agreement of argparse choices with dispatch tables; refusal/return statuses on the CFG; def-use of the convert "
+                       "pipeline; path summaries of Canonical (an eager object has decoded) and of the type search; cc_name folded "
+                       "over all command codes; unbound / undefined names")
     fns = mod.functions()
     for need in ("convert", "find_type", "parse_all_types", "examples", "fuzzy_match", "main", "find_fields"):
         if need not in fns:
